@@ -662,20 +662,22 @@ theorem encodeIndex_length (klen : Nat) (m : MapIdx) (hu : Uniform klen m) :
   rw [encodeEntries_length klen _ (sortEntries_uniform klen m hu), sortEntries_length]
 
 /-- **index_sorted_after_save** (decoding half): `Open` loads exactly the sorted entry array that `Save` wrote. -/
-theorem decodeFixed_encodeIndex (klen : Nat) (hk : klen ≤ 118) (m : MapIdx) (hu : Uniform klen m)
-    (hn : m.length < 2 ^ 31) :
-    decodeFixed klen (encodeIndex m) = .ok (encodeEntries (sortEntries m)) := by
+theorem decodeFixed_encodeIndex_tail (klen : Nat) (hk : klen ≤ 118) (m : MapIdx) (hu : Uniform klen m)
+    (hn : m.length < 2 ^ 31) (tail : Bytes) :
+    decodeFixed klen (encodeIndex m ++ tail) = .ok (encodeEntries (sortEntries m)) := by
   have hlen := encodeIndex_length klen m hu
   have hel := encodeEntries_length klen _ (sortEntries_uniform klen m hu)
   rw [sortEntries_length] at hel
   unfold decodeFixed
-  have h1 : ¬ (encodeIndex m).length < 4 := by omega
+  have h1 : ¬ (encodeIndex m ++ tail).length < 4 := by rw [List.length_append]; omega
   rw [if_neg h1]
-  have htake : (encodeIndex m).take 4 = le 4 m.length := by
+  have htake : (encodeIndex m ++ tail).take 4 = le 4 m.length := by
+    rw [List.take_append_of_le_length (by omega)]
     unfold encodeIndex
     rw [List.take_append_of_le_length (by rw [le_length]; omega)]
     apply List.take_of_length_le; rw [le_length]; omega
-  have hdrop : (encodeIndex m).drop 4 = encodeEntries (sortEntries m) := by
+  have hdrop : (encodeIndex m ++ tail).drop 4 = encodeEntries (sortEntries m) ++ tail := by
+    rw [List.drop_append_of_le_length (by omega)]
     unfold encodeIndex
     rw [List.drop_append_of_le_length (by rw [le_length]; omega)]
     have : List.drop 4 (le 4 m.length) = [] := by apply List.drop_of_length_le; rw [le_length]; omega
@@ -694,12 +696,21 @@ theorem decodeFixed_encodeIndex (klen : Nat) (hk : klen ≤ 118) (m : MapIdx) (h
     have : (encodeEntries (sortEntries m)).length = 0 := by rw [hel, Nat.mul_comm]; exact h0
     rw [List.eq_nil_of_length_eq_zero this]
   · rw [if_neg h0]
-    have h3 : ¬ (encodeEntries (sortEntries m)).length = 0 := by rw [hel, Nat.mul_comm]; exact h0
-    have h4 : ¬ (encodeEntries (sortEntries m)).length < m.length * (klen + 9) := by rw [hel, Nat.mul_comm]; omega
+    have hl : (encodeEntries (sortEntries m) ++ tail).length = m.length * (klen + 9) + tail.length := by
+      rw [List.length_append, hel, Nat.mul_comm]
+    have h3 : ¬ (encodeEntries (sortEntries m) ++ tail).length = 0 := by rw [hl]; omega
+    have h4 : ¬ (encodeEntries (sortEntries m) ++ tail).length < m.length * (klen + 9) := by rw [hl]; omega
     rw [if_neg h3, if_neg h4]
     congr 1
+    rw [List.take_append_of_le_length (by rw [hel, Nat.mul_comm]; omega)]
     apply List.take_of_length_le
     rw [hel, Nat.mul_comm]; omega
+
+theorem decodeFixed_encodeIndex (klen : Nat) (hk : klen ≤ 118) (m : MapIdx) (hu : Uniform klen m)
+    (hn : m.length < 2 ^ 31) :
+    decodeFixed klen (encodeIndex m) = .ok (encodeEntries (sortEntries m)) := by
+  have := decodeFixed_encodeIndex_tail klen hk m hu hn []
+  rwa [List.append_nil] at this
 
 /-- **torn index detected**: a crash while the index file is written leaves a proper prefix of it (nothing, the
 count only, or part of the array); `Open` rejects every such file — it never opens a torn index. -/
@@ -770,10 +781,14 @@ structure W where
   stored : Bytes
 deriving DecidableEq, Repr
 
-/-- the database after a history of writes, MOST RECENT FIRST -/
-def afterWrites (klen : Nat) (c : Bool) : List W → DB
-  | [] => DB.create klen c
-  | w :: earlier => (afterWrites klen c earlier).write w.key w.content w.stored
+/-- the database after a history of writes, MOST RECENT FIRST, stored over files that were already there:
+`left` = the bytes a crashed earlier attempt left in the data file (ANY content), `oldIdx` = an old index file -/
+def afterWritesOver (left : Bytes) (oldIdx : Option Bytes) (klen : Nat) (c : Bool) : List W → DB
+  | [] => { DB.create klen c with dat := left, idx := oldIdx }
+  | w :: earlier => (afterWritesOver left oldIdx klen c earlier).write w.key w.content w.stored
+
+/-- the database after a history of writes into fresh files -/
+def afterWrites (klen : Nat) (c : Bool) (hist : List W) : DB := afterWritesOver [] none klen c hist
 
 /-- the last write under a key (history most recent first) -/
 def lastWrite : List W → Bytes → Option W
@@ -800,30 +815,54 @@ structure Inv (klen : Nat) (c : Bool) (hist : List W) (d : DB) : Prop where
   cover : ∀ k w, lastWrite hist k = some w → ∃ o, (k, o) ∈ d.midx
   codec_eq : d.codec = hist.map (fun w => (w.stored, w.content))
   len_le : d.midx.length ≤ hist.length
-  dat_len : d.dat.length = (hist.map (fun w => 4 + w.stored.length)).sum
+  /-- the write cursor is inside the file, and every indexed record lies wholly before it -/
+  pos_le : d.pos ≤ d.dat.length
+  entry_before : ∀ e ∈ d.midx, ∀ w, lastWrite hist e.1 = some w → e.2 + (encodeRecord w.stored).length ≤ d.pos
 
-theorem afterWrites_inv (klen : Nat) (c : Bool) (hist : List W) : Inv klen c hist (afterWrites klen c hist) := by
+theorem overwriteAt_keeps_before (pre r post bs : Bytes) (pos : Nat) (h : pre.length + r.length ≤ pos) :
+    overwriteAt (pre ++ (r ++ post)) pos bs =
+      pre ++ (r ++ (post.take (pos - pre.length - r.length) ++ bs ++ (pre ++ (r ++ post)).drop (pos + bs.length))) := by
+  unfold overwriteAt
+  rw [List.take_append, List.take_of_length_le (by omega : pre.length ≤ pos)]
+  rw [List.take_append, List.take_of_length_le (by omega : r.length ≤ pos - pre.length)]
+  simp only [List.append_assoc]
+
+theorem afterWritesOver_inv (left : Bytes) (oldIdx : Option Bytes) (klen : Nat) (c : Bool) (hist : List W) :
+    Inv klen c hist (afterWritesOver left oldIdx klen c hist) := by
   induction hist with
   | nil =>
-    exact { klen_eq := rfl, comp_eq := rfl, nodup := by simp [afterWrites, DB.create],
-            entry := by simp [afterWrites, DB.create],
-            cover := by simp [lastWrite], codec_eq := rfl, len_le := by simp [afterWrites, DB.create],
-            dat_len := by simp [afterWrites, DB.create] }
+    exact { klen_eq := rfl, comp_eq := rfl, nodup := by simp [afterWritesOver, DB.create],
+            entry := by simp [afterWritesOver, DB.create],
+            cover := by simp [lastWrite], codec_eq := rfl, len_le := by simp [afterWritesOver, DB.create],
+            pos_le := by simp [afterWritesOver, DB.create],
+            entry_before := by simp [afterWritesOver, DB.create] }
   | cons w earlier ih =>
-    simp only [afterWrites, DB.write]
+    simp only [afterWritesOver, DB.write]
+    have hpos := ih.pos_le
     refine { klen_eq := ih.klen_eq, comp_eq := ih.comp_eq,
              nodup := MapIdx.set_keys_nodup _ _ _ ih.nodup, entry := ?_, cover := ?_,
-             codec_eq := by simp [ih.codec_eq], len_le := ?_, dat_len := ?_ }
+             codec_eq := by simp [ih.codec_eq], len_le := ?_, pos_le := ?_, entry_before := ?_ }
     · intro e he
       rcases MapIdx.mem_set_ne _ _ _ ih.nodup e he with h | ⟨h1, h2⟩
       · subst h
-        refine ⟨w, (afterWrites klen c earlier).dat, [], by simp [lastWrite], by simp, rfl⟩
+        refine ⟨w, (afterWritesOver left oldIdx klen c earlier).dat.take (afterWritesOver left oldIdx klen c earlier).pos,
+          (afterWritesOver left oldIdx klen c earlier).dat.drop
+            ((afterWritesOver left oldIdx klen c earlier).pos + (encodeRecord w.stored).length),
+          by simp [lastWrite], by simp [overwriteAt], ?_⟩
+        rw [List.length_take]; exact Nat.min_eq_left hpos
       · obtain ⟨w', pre, post, hl, hd, hp⟩ := ih.entry e h1
-        refine ⟨w', pre, post ++ encodeRecord w.stored, ?_, ?_, hp⟩
+        have hb := ih.entry_before e h1 w' hl
+        refine ⟨w', pre,
+          post.take ((afterWritesOver left oldIdx klen c earlier).pos - pre.length - (encodeRecord w'.stored).length) ++
+            encodeRecord w.stored ++
+            (pre ++ (encodeRecord w'.stored ++ post)).drop
+              ((afterWritesOver left oldIdx klen c earlier).pos + (encodeRecord w.stored).length), ?_, ?_, hp⟩
         · simp only [lastWrite]
           have : ¬ w.key = e.1 := fun x => h2 x.symm
           simp [this, hl]
-        · simp only [hd, List.append_assoc]
+        · show overwriteAt (afterWritesOver left oldIdx klen c earlier).dat _ _ = _
+          rw [hd]
+          exact overwriteAt_keeps_before pre (encodeRecord w'.stored) post _ _ (by rw [hp]; exact hb)
     · intro k w' hl
       simp only [lastWrite] at hl
       split at hl
@@ -831,10 +870,32 @@ theorem afterWrites_inv (klen : Nat) (c : Bool) (hist : List W) : Inv klen c his
       · rename_i hk
         obtain ⟨o, ho⟩ := ih.cover k w' hl
         exact ⟨o, MapIdx.mem_set_other _ _ _ _ ho (fun x => hk x.symm)⟩
-    · have := MapIdx.set_length_le (afterWrites klen c earlier).midx w.key (afterWrites klen c earlier).dat.length
+    · have := MapIdx.set_length_le (afterWritesOver left oldIdx klen c earlier).midx w.key
+        (afterWritesOver left oldIdx klen c earlier).pos
       have := ih.len_le
       simp only [List.length_cons]; omega
-    · simp only [List.length_append, encodeRecord_length, ih.dat_len, List.map_cons, List.sum_cons]; omega
+    · simp only [overwriteAt, List.length_append, List.length_take, List.length_drop]; omega
+    · intro e he w' hl
+      rcases MapIdx.mem_set_ne _ _ _ ih.nodup e he with h | ⟨h1, h2⟩
+      · subst h
+        simp only [lastWrite, if_true] at hl
+        injection hl with hl; subst hl
+        show (afterWritesOver left oldIdx klen c earlier).pos + _ ≤ (afterWritesOver left oldIdx klen c earlier).pos + _
+        exact Nat.le_refl _
+      · simp only [lastWrite] at hl
+        have : ¬ w.key = e.1 := fun x => h2 x.symm
+        simp only [this, if_false] at hl
+        have := ih.entry_before e h1 w' hl
+        show e.2 + (encodeRecord w'.stored).length ≤
+          (afterWritesOver left oldIdx klen c earlier).pos + (encodeRecord w.stored).length
+        omega
+
+theorem afterWrites_inv (klen : Nat) (c : Bool) (hist : List W) : Inv klen c hist (afterWrites klen c hist) :=
+  afterWritesOver_inv [] none klen c hist
+
+theorem save_idx (d : DB) :
+    d.save.idx = some (encodeIndex d.midx ++ (d.idx.getD []).drop (encodeIndex d.midx).length) := by
+  simp [DB.save, overwriteAt]
 
 theorem Codec.decompress_of_functional (c : Codec) (s x : Bytes) (hmem : (s, x) ∈ c)
     (hf : ∀ a b b', (a, b) ∈ c → (a, b') ∈ c → b = b') : c.decompress s = some x := by
